@@ -94,6 +94,9 @@ def observe(args):
             try:
                 with torch.no_grad():
                     sn(x)
+                if st.get('after'):   # options changed AFTER the forward pass: the cost must follow the coefficients sampled by that pass
+                    kw = {k: v for k, v in st['after'].items() if v is not None}
+                    sn.update_softmax_options(**kw)
                 th = [[float(v) for v in combs[b].theta_alpha] for b in range(len(combs))]
                 if full is False:
                     o['theta'] = th
@@ -169,6 +172,12 @@ def gen_settings(rng, d, quick):
     st(rand_alpha(), False, [True] * len(nbr), rng.choice([None, 0.05, 20.0]))   # hard, eval
     st(rand_alpha(), True, [True] * len(nbr), None)                              # hard / Gumbel-hard, train
     st(rand_alpha(), rng.random() < 0.5, cfg_hard, None, via=rng.choice([True, False]))   # through update_softmax_options
+    # forward pass, THEN update_softmax_options, THEN get_cost without a new forward: theta_alpha is still the one sampled by the pass
+    for (hard0, after) in ((False, {'hard': True, 'temperature': None}), (False, {'hard': True, 'temperature': rng.choice([0.1, 5.0])}),
+                           (False, {'hard': False, 'temperature': rng.choice([0.5, 20.0])}), (True, {'hard': False, 'temperature': None}),
+                           (True, {'hard': False, 'temperature': rng.choice([0.05, 2.0])})):
+        st(rand_alpha(), rng.random() < 0.3, [hard0] * len(nbr), rng.choice([None, 0.5, 2.0]))
+        sts[-1]['after'] = after
     # near-tied coefficients (unique raw maximum 1/2/4 float32 ulps or 1e-6 above an earlier / later runner-up): the
     # exported network must still be the raw arg-max selection whatever float32 softmax does to the pair
     for j, gap in enumerate(G.NEAR_GAPS):
@@ -215,7 +224,7 @@ def check_obs(d, table, st, o, fails, tag):
             w = {'metric': s, 'shared': shared, 'full_cost': full, 'get_cost': c}
             if not close(c, exp, TOL):
                 fails.append(('cost-not-weighted-mix', dict(info, what='%r: get_cost = %r, sum of coefficient-weighted branch costs (+ fixed layers with full_cost) = %r' % (w, c, float(exp)))))
-            elif not (float(lo) * (1 - TOL) - 1e-9 <= c <= float(hi) * (1 + TOL) + 1e-9):
+            if not (float(lo) * (1 - TOL) - 1e-9 <= c <= float(hi) * (1 + TOL) + 1e-9):
                 fails.append(('cost-outside-selection-bounds', dict(info, what='%r: get_cost = %r not in [cheapest selection %r, dearest selection %r]' % (w, c, float(lo), float(hi)))))
             # the exported network is the raw arg-max selection: its metric from scratch = the cost of that selection
             # (call-site dependent costs excluded: open finding)
@@ -249,6 +258,7 @@ def run(ctx):
     ctx.rule = ('networks of vlib/sn_gen.py (see C03) + a stream with a block invoked twice at different resolutions (fixed MaxPool2d(2) between the two calls); '
                 'metrics params (shared) and ops (per invocation) x full_cost off/on; settings per network: constructed options at uniform coefficients, soft eval, soft/Gumbel train, '
                 'hard eval, hard/Gumbel-hard train, update_softmax_options(hard=...), temperatures {.05,.1,.5,1,2,5,20}, coefficients = distinct multiples of 1/16 (10% ties), '
+                '5 sequences forward -> update_softmax_options(hard / temperature) -> get_cost WITHOUT a new forward (soft pass then hard flag, hard pass then soft flag; cost compared on the theta_alpha observed at that moment), '
                 'a NEAR-TIE stream per network (unique raw maximum 1/2/4 float32 ulps or 1e-6 above a runner-up, T in {.05,1,20,100}, hard: the exported network must cost what the raw arg-max selection costs), '
                 'and EVERY winner combination under hard selection when all blocks have <= 4 branches; one case = (network, setting); non-trivial = some block has two branches of different cost; '
                 'distinct by (network, sampled coefficients)')
@@ -278,7 +288,7 @@ def run(ctx):
         bcs = branch_costs(d, table, 'params')
         nontriv = any(len(set(v)) > 1 for v in bcs.values())
         for st, o in zip(sts, res['obs']):
-            mode = ('train' if st['train'] else 'eval') + ('/hard' if all(st['hard']) else '/soft' if not any(st['hard']) else '/mixed') + ('/gumbel' if any(b['gumbel'] for b in d['blocks']) else '')
+            mode = ('fwd-then-update(hard=%s)-then-cost:' % st['after']['hard'] if st.get('after') else '') + ('train' if st['train'] else 'eval') + ('/hard' if all(st['hard']) else '/soft' if not any(st['hard']) else '/mixed') + ('/gumbel' if any(b['gumbel'] for b in d['blocks']) else '')
             ctx.case((strip(d), o.get('theta')), nontrivial=nontriv, kind=tag + ':' + mode,
                      sample={'n_branches': [len(b['branches']) for b in d['blocks']], 'chain': d['chain'], 'mode': mode, 'theta': o.get('theta'), 'get_cost': o['cost'], 'exported_from_scratch': o['scratch']})
             if st.get('neartie'):
